@@ -1,9 +1,83 @@
 import NibabelModel.Model.C20
 import Driver.Util
-/-! Line-protocol driver for C20: `C20 <op> <args...>` -> one observable line. -/
+/-! Line-protocol driver for C20: `C20 <op> <args...>` -> one observable line.
+
+  `C20 load <strict 0|1> <permit 0|1> <dv|fp> <cfg> <records>`      current logic
+  `C20 loadorig <strict 0|1> <permit 0|1> <dv|fp> <cfg> <records>`  pinned (pre-fix) strict order
+  `C20 volnos <slices>`    `vol_numbers`
+  `C20 isfull <smax> <slices>`   `vol_is_full`
+
+  cfg     = `ver,diffusion,maxSlices,maxEchoes,maxDynamics,maxDiffValues,maxGradOrient` (ver ∈ 40,41,42)
+  records = `;`-separated, each `slice,echo,dyn,phase,itype,seq,bval,grad,label,ri,rs,ss,payload`
+-/
 namespace Nb.Drv.C20
+open Nb.C20
+
+def parseRec? (s : String) : Option Rec :=
+  match parseIntList? s with
+  | some [sl, ec, dy, ph, ty, sq, bv, gr, lb, ri, rs, ss, pl] =>
+      if pl < 0 then none else some ⟨sl, ec, dy, ph, ty, sq, bv, gr, lb, ri, rs, ss, pl.toNat⟩
+  | _ => none
+
+def parseRecs? (s : String) : Option (List Rec) :=
+  if s = "-" then none else (s.splitOn ";").mapM parseRec?
+
+def parseCfg? (s : String) : Option Cfg :=
+  match parseIntList? s with
+  | some [v, d, ms, me, md, mb, mg] =>
+      let ver : Option Version := if v = 40 then some .v4 else if v = 41 then some .v41
+                                  else if v = 42 then some .v42 else none
+      let dif : Option Bool := if d = 0 then some false else if d = 1 then some true else none
+      match ver, dif with
+      | some ver, some dif => some ⟨ver, dif, ms, me, md, mb, mg⟩
+      | _, _ => none
+  | _ => none
+
+def parseBool? (s : String) : Option Bool :=
+  if s = "0" then some false else if s = "1" then some true else none
+
+def parseScaling? (s : String) : Option Scaling :=
+  if s = "dv" then some .dv else if s = "fp" then some .fp else none
+
+def showRat (q : Rat) : String := toString q.num ++ "/" ++ toString q.den
+
+def showRats (l : List Rat) : String := "[" ++ ",".intercalate (l.map showRat) ++ "]"
+
+def showLabels (l : List (String × List Int)) : String :=
+  if l.isEmpty then "-" else "|".intercalate (l.map fun kv => kv.1 ++ ":" ++ showList kv.2)
+
+def showErr : Err → String
+  | .parrec => "ERR:PARRECError"
+  | .value => "ERR:ValueError"
+
+def showOut (o : Out) : String :=
+  "ok shape=" ++ showList o.shape ++ " idx=" ++ showList o.idx ++ " data=" ++ showList o.data ++
+  " slope=" ++ showRats o.slopes ++ " inter=" ++ showRats o.inters ++ " labels=" ++ showLabels o.labels
+
+def runLoad (orig : Bool) (st pe sc cfg recs : String) : String :=
+  match parseBool? st, parseBool? pe, parseScaling? sc, parseCfg? cfg, parseRecs? recs with
+  | some st, some pe, some sc, some cfg, some recs =>
+      -- fp scaling divides by the scale factors: zero factors are outside the modelled domain
+      if sc = .fp && recs.any (fun r => r.rs == 0 || r.ss == 0) then "bad-op"
+      else match load cfg pe st sc orig recs with
+        | .ok o => showOut o
+        | .error e => showErr e
+  | _, _, _, _, _ => "bad-op"
 
 def handle : List String → String
+  | ["load", st, pe, sc, cfg, recs] => runLoad false st pe sc cfg recs
+  | ["loadorig", st, pe, sc, cfg, recs] => runLoad true st pe sc cfg recs
+  | ["volnos", sl] =>
+      match parseIntList? sl with
+      | some sl => showList (volNumbers sl)
+      | none => "bad-op"
+  | ["isfull", smax, sl] =>
+      match smax.toInt?, parseIntList? sl with
+      | some smax, some sl =>
+          match volIsFull sl smax with
+          | .ok f => showList (f.map fun b => if b then 1 else 0)
+          | .error e => showErr e
+      | _, _ => "bad-op"
   | _ => "bad-op"
 
 end Nb.Drv.C20
